@@ -71,8 +71,8 @@ def check(prop, tier, seed, keep=False, replay=None):
 def write_undecided_evidence(prop, tier, seed, reason, wall):
     ev = {'property_id': prop, 'tier': tier if tier in ('quick', 'thorough') else 'quick', 'seed': seed, 'level': 'other',
           'coverage': {'explanation': 'UNDECIDED (exit 2): ' + reason[:2000]}, 'wall_s': round(wall, 2), 'violations': 0}
-    os.makedirs(os.path.join(VERIF, 'evidence'), exist_ok=True)
-    json.dump(ev, open(os.path.join(VERIF, 'evidence', prop + '.json'), 'w'), indent=1)
+    os.makedirs(EVIDENCE_DIR(), exist_ok=True)
+    json.dump(ev, open(os.path.join(EVIDENCE_DIR(), prop + '.json'), 'w'), indent=1)
 
 
 def _run_units(cfg, scratch, support_dir, tier, seed):
@@ -380,10 +380,16 @@ def _check(prop, cfg, tier, seed, scratch, t0):
         level = 'other'; cov['explanation'] = 'no obligation was discharged in this run (undecided)'
     ev = {'property_id': prop, 'tier': tier if tier in ('quick', 'thorough') else 'quick', 'seed': seed, 'level': level, 'coverage': cov,
           'assumptions': P.TRUSTED_COMMON + cfg.get('trusted', []), 'wall_s': round(wall, 2), 'violations': len(violations)}
-    os.makedirs(os.path.join(VERIF, 'evidence'), exist_ok=True)
-    json.dump(ev, open(os.path.join(VERIF, 'evidence', prop + '.json'), 'w'), indent=1)
+    os.makedirs(EVIDENCE_DIR(), exist_ok=True)
+    json.dump(ev, open(os.path.join(EVIDENCE_DIR(), prop + '.json'), 'w'), indent=1)
     print('%s: %d/%d obligations discharged, %d violation(s), %d known finding(s), %d undecided, %.1fs' % (prop, n_dis, n_obl, len(violations), len(seen), len(undecided), wall))
     return rc
+
+
+def EVIDENCE_DIR():
+    """/verif/evidence for runs against /repo itself; runs pointed at another tree (VERIF_REPO: seeded changes, refactorings) must not
+    overwrite the evidence of the repository"""
+    return os.path.join(VERIF, 'evidence') if R.REPO == '/repo' else os.path.join(VERIF, 'out', 'evidence-other-tree')
 
 
 def REPO_ORIG():
